@@ -22,12 +22,13 @@
 (*                                                                         *)
 (* What an object computes is a function of sem alone:                     *)
 (*     EvalObs(o, out, inputs, mode) = Eval / MapDenote of o.sem after     *)
-(*     translating `out` and the input names back through o.ren.           *)
+(*     translating `out` and the input names back through o.ren (and the   *)
+(*     term heads through o.heads).                                        *)
 (* Rewrites that the code performs on a pipeline object (Pipeline.copy,    *)
 (* pickle, join / |, update_renames, update_scope(+None), nest_funcs,      *)
 (* simplified_pipeline, split_disconnected, add_mapspec_axis) therefore    *)
 (* either keep sem (and change ren / outs), or apply one of the operators  *)
-(* SubDesc / JoinDesc / AddAxis below, whose relation to Eval is stated by *)
+(* SubDesc / JoinObj / AddAxis below, whose relation to Eval is stated by  *)
 (* the laws at the end (checked by TLC in MC_Rewrites and, on every        *)
 (* description met in a recorded trace, in TraceRewrites).                 *)
 (*                                                                         *)
